@@ -58,11 +58,14 @@ class NfdRegister(PrefixRegisterer):
                     break
                 await aio.sleep(0.001)
             try:
-                _, reply, _ = await self.app.express(
+                pending = self.app.express(
                     name=nfd_mgmt.make_command_v2('rib', 'register', self.app.face, name=name),
                     app_param=b'', signer=sec.DigestSha256Signer(for_interest=True),
                     validator=pass_all,
                     lifetime=1000)
+                # The command is stamped when it is signed, possibly one tick later than the reading above
+                self._last_command_timestamp = max(self._last_command_timestamp, utils.timestamp())
+                _, reply, _ = await pending
                 try:
                     ret = nfd_mgmt.parse_response(reply)
                 except (enc.DecodeError, TypeError, ValueError, IndexError, struct.error):
@@ -92,10 +95,13 @@ class NfdRegister(PrefixRegisterer):
                     break
                 await aio.sleep(0.001)
             try:
-                _, reply, _ = await self.app.express(
+                pending = self.app.express(
                     nfd_mgmt.make_command_v2('rib', 'unregister', self.app.face, name=name),
                     app_param=b'', signer=sec.DigestSha256Signer(for_interest=True),
                     validator=pass_all, lifetime=1000)
+                # The command is stamped when it is signed, possibly one tick later than the reading above
+                self._last_command_timestamp = max(self._last_command_timestamp, utils.timestamp())
+                _, reply, _ = await pending
                 try:
                     ret = nfd_mgmt.parse_response(reply)
                 except (enc.DecodeError, TypeError, ValueError, IndexError, struct.error):
